@@ -126,6 +126,8 @@ def prepare_aspirate_dispense_parameters(
                 raise ValueError(
                     f"If tip is an Iterable, it may only contain int or Tip values, not {type(element)}."
                 )
+        if not tips:
+            raise ValueError("If tip is an Iterable, it must contain at least one tip.")
         tip = sum(set(tips))
     elif not isinstance(tip, Tip):
         raise ValueError(f"tip must be an int between 1 and 8, Tip or Iterable, but was {type(tip)}.")
